@@ -6,14 +6,14 @@
 package c16
 
 import (
-	"math/big"
-	evmtypes "github.com/tharsis/ethermint/x/evm/types"
-	ibcexported "github.com/cosmos/ibc-go/v3/modules/core/exported"
-	paramproposal "github.com/cosmos/cosmos-sdk/x/params/types/proposal"
-	"github.com/cosmos/cosmos-sdk/x/params"
-	"sort"
 	"bytes"
 	"fmt"
+	"github.com/cosmos/cosmos-sdk/x/params"
+	paramproposal "github.com/cosmos/cosmos-sdk/x/params/types/proposal"
+	ibcexported "github.com/cosmos/ibc-go/v3/modules/core/exported"
+	evmtypes "github.com/tharsis/ethermint/x/evm/types"
+	"math/big"
+	"sort"
 	"strings"
 
 	sdk "github.com/cosmos/cosmos-sdk/types"
@@ -42,10 +42,16 @@ const (
 type packetCase struct {
 	Denom    string // "uatom" (foreign coin), "other" (unregistered foreign coin), "native" (returning stake)
 	Amount   string
-	Receiver string // "valid" | "malformed" | "blocked" | "zero" (the zero address: the ERC-20 mint of the conversion reverts after the escrow step)
+	Receiver string // "valid" | "malformed" | "blocked" | "zero" (the zero address: the ERC-20 mint of the conversion reverts after the escrow step) | "long" (a 32-byte address without an account)
 }
 
-func (p packetCase) String() string { return fmt.Sprintf("%s amount=%s receiver=%s", p.Denom, p.Amount, p.Receiver) }
+// longReceiver is a 32-byte account address (the length interchain accounts and other module-derived accounts have): no
+// account exists under it, nor under its 20-byte EVM form, before the packet arrives.
+var longReceiver = sdk.AccAddress(bytes.Repeat([]byte{0x5a}, 32))
+
+func (p packetCase) String() string {
+	return fmt.Sprintf("%s amount=%s receiver=%s", p.Denom, p.Amount, p.Receiver)
+}
 
 var big256 = "115792089237316195423570985008687907853269984665640564039457584007913129639937"
 
@@ -71,6 +77,8 @@ func Run(r *ev.Run, tier string) (evals, nontrivial int64) {
 			recv = authtypes.NewModuleAddress(authtypes.FeeCollectorName).String()
 		case "zero":
 			recv = sdk.AccAddress(make([]byte, 20)).String()
+		case "long":
+			recv = longReceiver.String()
 		}
 		srcCh := channel
 		denom := pc.Denom
@@ -183,7 +191,7 @@ func Run(r *ev.Run, tier string) (evals, nontrivial int64) {
 	var packets []packetCase
 	for _, d := range []string{"uatom", "other", "native", "multihop"} {
 		for _, a := range []string{"1", "3", "0", "abc", big256, "-1", ""} {
-			for _, rc := range []string{"valid", "malformed", "blocked", "zero"} {
+			for _, rc := range []string{"valid", "malformed", "blocked", "zero", "long"} {
 				packets = append(packets, packetCase{d, a, rc})
 			}
 		}
@@ -232,6 +240,9 @@ func Run(r *ev.Run, tier string) (evals, nontrivial int64) {
 			who := u1.Acc
 			if pc.Receiver == "zero" {
 				who = sdk.AccAddress(make([]byte, 20))
+			}
+			if pc.Receiver == "long" {
+				who = longReceiver
 			}
 			beforeM := observeFor(ctxM, who)
 			balM0, balI0 := c.App.BankKeeper.GetAllBalances(ctxM, who), c.App.BankKeeper.GetAllBalances(ctxI, who)
